@@ -391,3 +391,16 @@ Proof.
       * unfold modifiers; cbn [In]; tauto.
       * intros _. eexists. reflexivity.
 Qed.
+
+(** ** the export list rewriting of define-library (translated from the library wrapper, meta-7.scm:322-329):
+    (rename internal external) becomes (external . internal), a plain name stays *)
+Theorem rewrite_export_spec W' e :
+  exists v, rewrite_export W' (enc_espec e) = Ok v /\ abs_id v = Some (espec_pair e).
+Proof.
+  destruct e as [n|a b]; cbn [enc_espec espec_pair].
+  - exists (Sym n). split; reflexivity.
+  - exists (Pair (Sym b) (Sym a)). split; reflexivity.
+Qed.
+
+Example rewrite_export_rejects : rewrite_export Nil (list_sx [Sym "rename"; Sym "a"]) = Err (SchemeError "invalid module export").
+Proof. reflexivity. Qed.
